@@ -1085,6 +1085,18 @@ def run_isolation(out, tier):
                 st['args']['p'] = [q for q in st['args']['p']
                                    if rnd.random() < 0.3] + \
                     [{'k': 'invalid', 'v': True}]
+    # views of a masked variable assigned by eval, then written into
+    for t, k in (('T2', 'M'), ('T4', 'G'), ('T7', 'F'), ('T10', 'DATEM')):
+        for how in ('marr', 'all'):
+            progs.append({'templates': [t, t], 'steps': [
+                {'act': 'eval', 'src': 1, 'others': [], 'args': {
+                    'assign': [{'name': 'NEW0', 'e': {
+                        't': 'part', 'how': how,
+                        'e': {'t': 'var', 'k': k}}}],
+                    'copyall': how == 'all'}},
+                {'act': 'writeall', 'src': 3, 'others': [], 'args': {
+                    'derived': {'act': 'eval', 'src': 1, 'via': 'method',
+                                'wraps': []}}}]})
     progs += interp_argument_programs()
     # disk-backed receivers (netCDF handles keep reader state of their own)
     nd = 150 if tier == 'quick' else 1500
